@@ -204,7 +204,8 @@ func runLBAdmin(x *X) {
 			}
 			return in
 		case 1:
-			in := adminIn{Op: "remove", Name: names[c.Intn(3, "name")]}
+			// (the permanent member can go too: a pool may be emptied and refilled at run time)
+			in := adminIn{Op: "remove", Name: append([]string{"perm"}, names...)[c.Intn(4, "name4")]}
 			if c.Intn(8, "rmbad") == 7 {
 				in.Name = "ghost"
 			}
@@ -282,9 +283,23 @@ func runLBAdmin(x *X) {
 		evs := net.snapshot()
 		hostName := map[string]string{}
 		_ = hostName
+		// the member "perm" serves as long as nobody has asked for its removal: a request that
+		// returned before the first remove(perm) was even invoked must have been served
+		permGoneFrom := ^uint64(0)
+		for _, o := range hist {
+			if o.in.Op == "remove" && o.in.Name == "perm" && o.inv < permGoneFrom {
+				permGoneFrom = o.inv
+			}
+		}
+		reqRet := map[int]uint64{}
+		for _, e := range evs {
+			if e.kind == "ret" {
+				reqRet[e.req] = e.seq
+			}
+		}
 		for _, r := range results {
-			if r.status != 200 {
-				x.Violate("C11", "C11/traffic-not-served{status="+fmt.Sprint(r.status)+"}", "request %d returned %d during reconfiguration although a permanent healthy backend exists throughout", r.id, r.status)
+			if r.status != 200 && reqRet[r.id] < permGoneFrom {
+				x.Violate("C11", "C11/traffic-not-served{status="+fmt.Sprint(r.status)+"}", "request %d returned %d during reconfiguration although a healthy backend (perm) was a member from start to the end of the request", r.id, r.status)
 			}
 		}
 		// a request invoked after remove(name) returned must not reach a host that only that name pointed to
